@@ -1234,4 +1234,79 @@ theorem applyAll_spec (src : List ObjId) (rest : List ObjId) (h : Store)
       rw [i5 x (fun c => hx (List.mem_cons_of_mem _ c)), v2 x hxi]
 
 
+/-! ### the out-vector specification `diffPos` -/
+
+theorem mem_diffPos (h : Store) (l : List ObjId) (src : List ObjId) (pos p : Nat) :
+    p ∈ diffPos h l pos src ↔
+      pos ≤ p ∧ ∃ s t, src[p - pos]? = some s ∧ find? h l (nameOf h s) = some t ∧
+        (h.get t).value ≠ (h.get s).value := by
+  induction src generalizing pos with
+  | nil => simp [diffPos]
+  | cons a rest ih =>
+    have step : (pos + 1 ≤ p ∧ ∃ s t, rest[p - (pos + 1)]? = some s ∧ find? h l (nameOf h s) = some t ∧
+        (h.get t).value ≠ (h.get s).value) ↔
+        (pos < p ∧ ∃ s t, (a :: rest)[p - pos]? = some s ∧ find? h l (nameOf h s) = some t ∧
+        (h.get t).value ≠ (h.get s).value) := by
+      constructor
+      · rintro ⟨hp, s, t, e1, e2⟩
+        refine ⟨hp, s, t, ?_, e2⟩
+        have : p - pos = (p - (pos + 1)) + 1 := by omega
+        rw [this, List.getElem?_cons_succ]; exact e1
+      · rintro ⟨hp, s, t, e1, e2⟩
+        refine ⟨hp, s, t, ?_, e2⟩
+        have : p - pos = (p - (pos + 1)) + 1 := by omega
+        rw [this, List.getElem?_cons_succ] at e1; exact e1
+    have zero : ∀ (P : ObjId → Prop), (∃ s, (a :: rest)[pos - pos]? = some s ∧ P s) ↔ P a := by
+      intro P; simp
+    cases e : find? h l (nameOf h a) with
+    | none =>
+      simp only [diffPos, e]
+      rw [ih, step]
+      constructor
+      · rintro ⟨hp, x⟩; exact ⟨Nat.le_of_lt hp, x⟩
+      · rintro ⟨hp, s, t, e1, e2, e3⟩
+        rcases Nat.lt_or_eq_of_le hp with hp | hp
+        · exact ⟨hp, s, t, e1, e2, e3⟩
+        · subst hp
+          simp only [Nat.sub_self, List.getElem?_cons_zero, Option.some.injEq] at e1
+          subst e1; rw [e] at e2; cases e2
+    | some t =>
+      simp only [diffPos, e]
+      split
+      · next hd =>
+        simp only [List.mem_cons]
+        rw [ih, step]
+        constructor
+        · rintro (rfl | ⟨hp, x⟩)
+          · exact ⟨Nat.le_refl _, a, t, by simp, e, hd⟩
+          · exact ⟨Nat.le_of_lt hp, x⟩
+        · rintro ⟨hp, x⟩
+          rcases Nat.lt_or_eq_of_le hp with hp | hp
+          · exact Or.inr ⟨hp, x⟩
+          · exact Or.inl hp.symm
+      · next hd =>
+        rw [ih, step]
+        constructor
+        · rintro ⟨hp, x⟩; exact ⟨Nat.le_of_lt hp, x⟩
+        · rintro ⟨hp, s, t', e1, e2, e3⟩
+          rcases Nat.lt_or_eq_of_le hp with hp | hp
+          · exact ⟨hp, s, t', e1, e2, e3⟩
+          · subst hp
+            simp only [Nat.sub_self, List.getElem?_cons_zero, Option.some.injEq] at e1
+            subst e1; rw [e] at e2; cases e2; exact absurd e3 hd
+
+theorem diffPos_sorted (h : Store) (l : List ObjId) (src : List ObjId) (pos : Nat) :
+    (diffPos h l pos src).Pairwise (· < ·) := by
+  induction src generalizing pos with
+  | nil => simp [diffPos]
+  | cons a rest ih =>
+    unfold diffPos
+    split
+    · exact ih _
+    · split
+      · refine List.pairwise_cons.2 ⟨fun p hp => ?_, ih _⟩
+        have := ((mem_diffPos h l rest (pos + 1) p).1 hp).1; omega
+      · exact ih _
+
+
 end Bpp.ParamList
